@@ -67,11 +67,17 @@ def nonCallableKeys : List String := ["None", "True", "False", "r", "Type"]
 /-- keys of `self.allowed_calls`: the callables among the bindings made at namespace construction -/
 def allowedCalls : List String := baseKeys.filter (fun k => !(nonCallableKeys.contains k))
 
+/-- `".".join(parts)` -/
+def joinDots : List String → String
+  | [] => ""
+  | [a] => a
+  | a :: b :: rest => a ++ "." ++ joinDots (b :: rest)
+
 /-- `resolve_attr_path(node)`: the dotted path of the call target, `none` unless the chain is rooted in a Name. -/
 def resolveAttrPath (func : Expr) : Option String :=
   let r := attrChain func
   match r.2 with
-  | .name id => some (".".intercalate (id :: r.1.reverse))
+  | .name id => some (joinDots (id :: r.1.reverse))
   | _ => none
 
 /-- the documented operator set, as the reference evaluator understands it -/
